@@ -8,7 +8,10 @@ import (
 	"fmt"
 	"math/rand"
 	"os"
+	"runtime"
 	"sync"
+	"sync/atomic"
+	"time"
 
 	"github.com/Fantom-foundation/lachesis-base/gossip/dagordering"
 	"github.com/Fantom-foundation/lachesis-base/hash"
@@ -39,7 +42,8 @@ type BufScenario struct {
 		Num  int `json:"num"`
 		Size int `json:"size"`
 	} `json:"limit"`
-	Size int `json:"size"`
+	Size  int   `json:"size"`
+	Sizes []int `json:"sizes"`
 }
 
 type rec map[string]interface{}
@@ -85,6 +89,9 @@ func mkEvents(parents [][]int, size int) ([]*tdag.TestEvent, []int, map[hash.Eve
 // RunBufScenario executes one sequential scenario on a fresh EventsBuffer and records the trace.
 func RunBufScenario(sc *BufScenario, scen int, tw *traceWriter) {
 	evs, sizes, idOf := mkEvents(sc.Parents, sc.Size)
+	if len(sc.Sizes) == len(sizes) {
+		sizes = sc.Sizes
+	}
 	tw.emit(rec{"op": "reset", "scen": scen, "parents": sc.Parents, "sizes": sizes, "sequential": true,
 		"limit": rec{"num": sc.Limit.Num, "size": sc.Limit.Size}})
 	connected := map[hash.Event]dag.Event{}
@@ -179,6 +186,19 @@ func CmdBufRun(args []string) int {
 	return 0
 }
 
+var yieldCtr uint32
+
+// yield perturbs the schedule inside lookup callbacks (every few calls a Gosched or a short sleep).
+func yield(h hash.Event) {
+	n := atomic.AddUint32(&yieldCtr, 1)
+	switch (n + uint32(h[8])) % 5 {
+	case 0:
+		runtime.Gosched()
+	case 1:
+		time.Sleep(time.Duration(20+n%60) * time.Microsecond)
+	}
+}
+
 // CmdBufConc: vh bufconc <runs> <trace.ndjson> — seeded concurrent pushers on random DAGs.
 // All callbacks run under the buffer's mutex, so the recorded callback order is a linearization;
 // push/pushed lines are written under a separate lock and only bracket the calls.
@@ -248,8 +268,21 @@ func CmdBufConc(args []string, seed int64) int {
 			Released: func(e dag.Event, peer string, err error) {
 				emit(rec{"op": "released", "copy": e.(*bufCopy).copyID, "ev": idOf[e.ID()], "err": err != nil})
 			},
-			Get:    func(h hash.Event) dag.Event { cmu.RLock(); defer cmu.RUnlock(); return connected[h] },
-			Exists: func(h hash.Event) bool { cmu.RLock(); defer cmu.RUnlock(); return connected[h] != nil },
+			// the lookups yield now and then: they widen any window between a lookup and the use of its answer
+			Get: func(h hash.Event) dag.Event {
+				cmu.RLock()
+				x := connected[h]
+				cmu.RUnlock()
+				yield(h)
+				return x
+			},
+			Exists: func(h hash.Event) bool {
+				cmu.RLock()
+				x := connected[h] != nil
+				cmu.RUnlock()
+				yield(h)
+				return x
+			},
 			Check: func(e dag.Event, ps dag.Events) error {
 				c := e.(*bufCopy)
 				ev := idOf[e.ID()]
